@@ -12,7 +12,11 @@ enum { VK_Z, VK_SHELL, VK_LINE, VK_TRANS, VK_AUGER, VK_INT, VK_BOOL, VK_ENERGY, 
 #define ND_KIND_DBL(n, k) double n
 #define ND_BOOL(n) _Bool n
 #define VASSERT(c, name) __CPROVER_assert((c), name)
+#ifdef NOCAN
+#define VCANARY(name)
+#else
 #define VCANARY(name) __CPROVER_assert(0, "CANARY " name)
+#endif
 #define VASSUME(c) __CPROVER_assume(c)
 #define VNATIVE(stmt)
 #define VCBMC(stmt) stmt
